@@ -4,7 +4,7 @@
 (* call returned or raised, the snapshot of every argument that is not documented as   *)
 (* in-place is the same before and after.  One ndjson line per invocation:             *)
 (*   {"id": k, "call": name, "opt": o, "nd": d, "lay": [{"order","contig","kind"}..],  *)
-(*    "val": [value class ..],                                                          *)
+(*    "val": [value class ..], "size": ["small"|"large" ..],                            *)
 (*    "outcome": "returned"|"raised", "pre": [snap..], "post": [snap..]}               *)
 (*   snap = {"data","base","dtype","flags"} (opaque tokens of the real argument)       *)
 (* Failing clauses are printed as "<parameter index>:<what changed>".                  *)
@@ -28,7 +28,9 @@ InCatalogue(r) ==
     /\ LET c == FrCallNamed(r.call) IN
          /\ r.opt \in c.opts /\ r.nd \in c.ndims
          /\ Len(r.lay) = Len(c.params) /\ Len(r.pre) = Len(c.params) /\ Len(r.post) = Len(c.params) /\ Len(r.val) = Len(c.params)
-         /\ \A i \in DOMAIN c.params : r.lay[i].kind \in c.params[i].kinds /\ FrLayoutOK(r.lay[i], r.nd)
+         /\ Len(r.size) = Len(c.params)
+         /\ \A i \in DOMAIN c.params : r.size[i] \in FrSizes /\ (r.size[i] = "large" => r.nd = 1 /\ r.opt \in c.big)
+         /\ \A i \in DOMAIN c.params : r.lay[i].kind \in FrKindsOf(c.params[i]) /\ FrLayoutOK(r.lay[i], r.nd)
                                          /\ FrValOK(c.params[i], r.lay[i], r.val[i], r.nd)
     /\ r.outcome \in {"returned", "raised"}
 
